@@ -33,6 +33,9 @@ type space struct {
 	OAct   [][3]bool  `json:"oracle_active"`
 	Groups []GroupCfg `json:"-"`
 	GroupN string     `json:"groups"`
+	// Discarded: before the block, the state-changing messages that would flip each "off" flag of the tuple (and parameter
+	// updates with other percentages) are executed by the real handlers on a branch that is thrown away
+	Discarded bool `json:"discarded_executions,omitempty"`
 }
 
 // dimension order: fastest first; the two dimensions that select the base state are the slowest so
@@ -44,7 +47,7 @@ func (s space) odometer() engine.Odometer {
 
 func (s space) tuple(d []int) Tuple {
 	return Tuple{Pool: s.Pools[d[0]], Pool2: s.Pools2[d[1]], OPct: s.OPct[d[2]], TPct: s.TPct[d[3]], Tax: s.Tax[d[4]], Mint: s.Mint[d[5]],
-		Powers: s.Powers[d[6]], Prop: s.Prop[d[7]], OAct: s.OAct[d[8]], Group: s.Groups[d[9]]}
+		Powers: s.Powers[d[6]], Prop: s.Prop[d[7]], OAct: s.OAct[d[8]], Group: s.Groups[d[9]], Discarded: s.Discarded}
 }
 
 func inS[T comparable](xs []T, x T) bool {
@@ -65,7 +68,7 @@ func (s space) contains(t Tuple) bool {
 			g = true
 		}
 	}
-	return g && inS(s.Pools, t.Pool) && inS(s.Pools2, t.Pool2) && inS(s.OPct, t.OPct) && inS(s.TPct, t.TPct) && inS(s.Tax, t.Tax) &&
+	return g && s.Discarded == t.Discarded && inS(s.Pools, t.Pool) && inS(s.Pools2, t.Pool2) && inS(s.OPct, t.OPct) && inS(s.TPct, t.TPct) && inS(s.Tax, t.Tax) &&
 		inS(s.Mint, t.Mint) && inS(s.Powers, t.Powers) && inS(s.Prop, t.Prop) && inS(s.OAct, t.OAct)
 }
 
@@ -126,6 +129,8 @@ func spaces(quick bool) []space {
 	one := "one group of 2 valid members"
 	if quick {
 		return []space{
+			{Name: "discarded-executions", Discarded: true, Pools: []string{"3", "1000001"}, Pools2: []string{"", "5"}, OPct: []uint64{33}, TPct: []uint64{33}, Tax: []string{"0.02"}, Mint: []bool{false},
+				Powers: [][3]int64{{1, 2, 10}}, Prop: []int{0, 2}, OAct: allFlags3(), Groups: groupConfigs(0, 1, 2), GroupN: "no group; 1,2 members x all flags"},
 			{Name: "oracle", Pools: poolsQ, Pools2: []string{""}, OPct: pct6, TPct: []uint64{50}, Tax: tax4, Mint: []bool{false},
 				Powers: powerVectors([]int64{1, 3, 10}), Prop: []int{0, 1, 2}, OAct: allFlags3(), Groups: []GroupCfg{bothOn}, GroupN: one},
 			{Name: "oracle-multidenom-mint", Pools: []string{"3", "1000001"}, Pools2: []string{"5"}, OPct: []uint64{1, 33, 100}, TPct: []uint64{50}, Tax: []string{"0.02", "0.5"}, Mint: []bool{false, true},
@@ -138,6 +143,8 @@ func spaces(quick bool) []space {
 	}
 	// thorough: the smaller products first so that an internal time cap can only cut the largest one
 	return []space{
+		{Name: "discarded-executions", Discarded: true, Pools: []string{"3", "99", "1000001"}, Pools2: []string{"", "5"}, OPct: []uint64{0, 33, 100}, TPct: []uint64{0, 33, 100}, Tax: []string{"0.02"}, Mint: []bool{false, true},
+			Powers: [][3]int64{{1, 1, 1}, {1, 2, 10}}, Prop: []int{0, 1, 2}, OAct: allFlags3(), Groups: groupConfigs(0, 1, 2, 3), GroupN: "no group; 1,2,3 members x all flags"},
 		{Name: "tss", Pools: poolsX, Pools2: []string{"", "1", "5", "1000003"}, OPct: []uint64{0, 1, 33, 99, 100}, TPct: pct6, Tax: tax5, Mint: []bool{false, true},
 			Powers: [][3]int64{{1, 2, 10}}, Prop: []int{0}, OAct: [][3]bool{on3}, Groups: groupConfigs(0, 1, 2, 3), GroupN: "no group; 1,2,3 members x all (active,nonce) flags"},
 		{Name: "cross", Pools: []string{"3", "99", "1000001", "1000000000000000007"}, Pools2: []string{"", "5"}, OPct: []uint64{0, 33, 50, 100}, TPct: []uint64{0, 33, 50, 100}, Tax: []string{"0", "0.02", "1"}, Mint: []bool{false, true},
@@ -256,8 +263,14 @@ func run(r *engine.Run) {
 	}
 	tally.MergeInto(r)
 	r.Distinct += int(nontrivial)
-	// confirm every distinct fingerprint twice on fresh worlds
+	// confirm every distinct fingerprint twice on fresh worlds.  The workers evaluate many tuples on one application, each on
+	// a branch that is thrown away; a violation that a fresh application does not show can therefore only come from state the
+	// implementation keeps outside the stores.  Such a record is not reported: the "discarded-executions" product contains the
+	// same situation as an explicit, reproducible tuple.  If nothing reproduces the divergence is a harness error.
 	seen := map[string]bool{}
+	drop := map[string]bool{}
+	reproduced := 0
+	var firstBad string
 	for _, fv := range r.Violations {
 		if seen[fv.Fingerprint] || len(seen) >= 8 {
 			continue
@@ -274,9 +287,32 @@ func run(r *engine.Run) {
 				found = found || x.Fingerprint == fv.Fingerprint
 			}
 			if !found {
-				engine.Fatal3("HARNESS-NONDETERMINISM: violation %q on tuple %s did not reproduce on replay %d", fv.Fingerprint, t, k+1)
+				if k == 1 {
+					engine.Fatal3("HARNESS-NONDETERMINISM: violation %q on tuple %s reproduced on the first replay but not on the second", fv.Fingerprint, t)
+				}
+				drop[fv.Fingerprint] = true
+				if firstBad == "" {
+					firstBad = fmt.Sprintf("violation %q on tuple %s did not reproduce on replay", fv.Fingerprint, t)
+				}
+				break
+			}
+			if k == 1 {
+				reproduced++
 			}
 		}
+	}
+	if len(drop) > 0 {
+		if reproduced == 0 {
+			engine.Fatal3("HARNESS-NONDETERMINISM: %s", firstBad)
+		}
+		var keep []engine.FoundViolation
+		for _, fv := range r.Violations {
+			if !drop[fv.Fingerprint] {
+				keep = append(keep, fv)
+			}
+		}
+		r.Violations = keep
+		r.Notes = append(r.Notes, "not reported (unreproducible on a fresh application, consequence of state kept outside the stores): "+firstBad)
 	}
 }
 
